@@ -448,9 +448,10 @@ Inductive scase :=
   (* ncat (None = inferred), obs, sim, result (None = error) *)
   | KConf (ncat : option Z) (obs sim : list Z)
           (res : option (list Z * list Z * list (list Z)))
-  (* TN FP FN TP, error?, [bias; hitrate; precision; falsealarm; accuracy; F1;
-     MCC; ORSS] exact, [LOR; EDS] with tolerance *)
-  | KBin (tn fp fn tp : Z) (err : bool) (exact : list float) (approx : list float).
+  (* TN FP FN TP, error?, [bias; hitrate; precision; falsealarm; accuracy; F1; MCC]
+     with tolerance tolp, [LOR; EDS; ORSS] (through theta and/or math.log) with tola *)
+  | KBin (tn fp fn tp : Z) (err : bool) (plain : list float) (approx : list float)
+         (tolp tola : float).
 
 Definition fid (x : float) : float := x.
 
@@ -472,13 +473,13 @@ Definition s_ok (c : scase) : bool :=
           list_same (list_same Z.eqb) (ct_vals t) v
       | _, _ => false
       end
-  | KBin tn fp fn tp err exact approx =>
+  | KBin tn fp fn tp err plain approx tolp tola =>
       match binary F64 f_ln tn fp fn tp with
       | BErr => err
       | BOk b =>
           negb err &&
-          list_same f_same [b_bias b; b_hit b; b_prec b; b_fa b; b_acc b; b_f1 b;
-                            b_mcc b; b_orss b] exact &&
-          list_same (f_close 0x1.5fd7fe1796495p-37%float) [b_lor b; b_eds b] approx
+          list_same (f_close tolp) [b_bias b; b_hit b; b_prec b; b_fa b; b_acc b; b_f1 b;
+                                    b_mcc b] plain &&
+          list_same (f_close tola) [b_lor b; b_eds b; b_orss b] approx
       end
   end.
